@@ -63,6 +63,12 @@ fn parts(idx: usize, cfg: &NodeCfg, log: &Arc<EvLog>, fee_now: u32, disk: Option
 	(keys, bcast, fee, logger, persister, mon, watch)
 }
 
+/// The same objects a node is built from, wired to a private event log: for shadow copies that must
+/// not disturb what the monitors observe.
+pub fn quiet_parts(idx: usize, cfg: &NodeCfg, fee_now: u32, generation: u64) -> (Arc<Keys>, Arc<Bcast>, Arc<Fee>, Arc<RingLogger>, Arc<Persister>, Arc<ChainMon>, Arc<WatchTap>) {
+	parts(idx, cfg, &Arc::new(EvLog::default()), fee_now, None, generation)
+}
+
 impl Node {
 	pub fn new(idx: usize, cfg: NodeCfg, log: &Arc<EvLog>, fee_now: u32, best: BlockLocator) -> Node {
 		let (keys, bcast, fee, logger, persister, mon, watch) = parts(idx, &cfg, log, fee_now, None, 0);
